@@ -5,10 +5,10 @@
     pushed in front in the order `newGrammar` registers them and looked up front first, so a
     later registration of the same kind overwrites an earlier one exactly as a map store does.
   * `nud` / `led` function pointers are the tags `Nud` / `Led`.
-  * Binding powers are Go `float32`.  They travel as `Float` (binary64) holding a float32
-    value; comparisons are exact, and the only arithmetic, `bp - 1`, is done in `Float32`
-    (`bpPred` = `BP.Prev`, the float32 predecessor: the right operand of a right-associative
-    operator is parsed just below the operator's own power).
+  * Binding powers are Go `float32`: `Yae.BP` (sign and magnitude bits, `Model/Token.lean`).  The
+    comparison is IEEE `<` defined on the bits, and `bpPred` = `BP.Prev` is the float32
+    predecessor (the right operand of a right-associative operator is parsed just below the
+    operator's own power).  Nothing about binding powers is opaque to the kernel.
   * A Go panic (every `util.Assert`, the slice expression in `ast.Time`) is `ParseErr.syntax`;
     `tryParse` recovers from every panic and rewinds, modelled in `listMap` by catching
     `.syntax` only.  `.externMiss` (the `strtotime` table has no entry for a time literal) and
@@ -46,27 +46,40 @@ inductive Led where
 
 /-- `grammar`: newest registration first. -/
 structure Grammar where
-  prefixs : List (String × Float × Nud)
-  infixs : List (String × Float × Led)
+  prefixs : List (String × BP × Nud)
+  infixs : List (String × BP × Led)
   deriving Inhabited
 
-def Grammar.prefix (g : Grammar) (k : String) (bp : Float) (f : Nud) : Grammar :=
+def Grammar.prefix (g : Grammar) (k : String) (bp : BP) (f : Nud) : Grammar :=
   { g with prefixs := (k, bp, f) :: g.prefixs }
 
-def Grammar.infix (g : Grammar) (k : String) (bp : Float) (f : Led) : Grammar :=
+def Grammar.infix (g : Grammar) (k : String) (bp : BP) (f : Led) : Grammar :=
   { g with infixs := (k, bp, f) :: g.infixs }
 
-def tableLookup {α : Type} (k : String) : List (String × Float × α) → Option (Float × α)
+def tableLookup {α : Type} (k : String) : List (String × BP × α) → Option (BP × α)
   | [] => none
   | (k', bp, f) :: rest => if k' == k then some (bp, f) else tableLookup k rest
 
 /-- The `oper.BP` constants used by the grammar. -/
-def bpNone : Float := 0
-def bpCond : Float := 2
-def bpCall : Float := 12
-def bpMember : Float := 13
+def bpNone : BP := 0
+def bpCond : BP := 2
+def bpCall : BP := 12
+def bpMember : BP := 13
 
 def tkEOF : String := "<END-OF-FILE>"
+
+/-- `oper.BuiltIn()` in declaration order (tied to the code by `GenTie.operators_tie`). -/
+def builtinOps : List Operator := [
+  ⟨"+", 10, fixPrefix⟩, ⟨"-", 10, fixPrefix⟩,
+  ⟨"+", 7, fixInfixL⟩, ⟨"-", 7, fixInfixL⟩,
+  ⟨"*", 8, fixInfixL⟩, ⟨"/", 8, fixInfixL⟩, ⟨"%", 8, fixInfixL⟩,
+  ⟨"^", 9, fixInfixR⟩,
+  ⟨"<=", 6, fixInfixN⟩, ⟨"<", 6, fixInfixN⟩, ⟨">=", 6, fixInfixN⟩, ⟨">", 6, fixInfixN⟩,
+  ⟨"==", 5, fixInfixN⟩, ⟨"!=", 5, fixInfixN⟩,
+  ⟨"||", 3, fixInfixL⟩, ⟨"&&", 4, fixInfixL⟩,
+  ⟨"!", 10, fixPrefix⟩,
+  ⟨"or", 3, fixInfixL⟩, ⟨"and", 4, fixInfixL⟩,
+  ⟨"not", 10, fixPrefix⟩]
 
 /-- The `switch op.Fixity` of `newGrammar` (no `default`: `NA` and unknown fixities register nothing). -/
 def Grammar.addOp (g : Grammar) (op : Operator) : Grammar :=
@@ -97,21 +110,13 @@ def newGrammar (ops : List Operator) : Grammar :=
   g
 
 /-- `infixLbp`: the binding power of the infix entry, `0` without one. -/
-def Grammar.infixLbp (g : Grammar) (k : String) : Float :=
+def Grammar.infixLbp (g : Grammar) (k : String) : BP :=
   match tableLookup k g.infixs with
   | some (bp, _) => bp
   | none => 0
 
 /-- `BP.Prev`: `math.Nextafter32(bp, -Inf)`, the largest float32 below `bp`. -/
-def bpPred (bp : Float) : Float :=
-  let x := bp.toFloat32
-  if x.isNaN then bp
-  else if x == 0 then (Float32.ofBits 0x80000001).toFloat
-  else
-    let b := x.toBits
-    if b == 0xff800000 then bp                      -- -Inf stays
-    else if x > 0 then (Float32.ofBits (b - 1)).toFloat
-    else (Float32.ofBits (b + 1)).toFloat
+def bpPred (bp : BP) : BP := bp.pred
 
 /-- `lexer.EOF` -/
 def eofToken : Token := ⟨tkEOF, tkEOF, Pos.unknown⟩
@@ -172,7 +177,7 @@ abbrev PRes (α : Type) := Except ParseErr (α × Nat)
 mutual
 
 /-- `expr(rbp)` at cursor `i`. -/
-def pExpr (env : PEnv) : Nat → Float → Nat → PRes Expr
+def pExpr (env : PEnv) : Nat → BP → Nat → PRes Expr
   | 0, _, _ => .error .fuel
   | f + 1, rbp, i =>
     let t := env.peek i
@@ -282,7 +287,7 @@ def pExpr (env : PEnv) : Nat → Float → Nat → PRes Expr
 termination_by structural fuel => fuel
 
 /-- `parseInfix(left, rbp)` at cursor `i`: one iteration of the `for` per call. -/
-def pInfix (env : PEnv) : Nat → Expr → Float → Nat → PRes Expr
+def pInfix (env : PEnv) : Nat → Expr → BP → Nat → PRes Expr
   | 0, _, _, _ => .error .fuel
   | f + 1, left, rbp, i =>
     let t := env.peek i
